@@ -17,7 +17,8 @@ from pyvc.engine import Obj, Builtin
 from pyvc import library as L
 from pyvc.values import PyExc, SymStr, to_int
 
-FUNCS = ['t2listing.t2listing.setup_table_TOUGH2', 't2listing.t2listing.read_table_TOUGH2', 't2listing.t2listing.skip_table_TOUGH2', 't2listing.t2listing.parse_table_header_TOUGH2',
+FUNCS = ['t2listing.t2listing.setup_table_AUTOUGH2', 't2listing.t2listing.read_table_AUTOUGH2', 't2listing.t2listing.skip_table_AUTOUGH2', 't2listing.t2listing.parse_table_header_AUTOUGH2',
+         't2listing.t2listing.read_table_line_AUTOUGH2', 't2listing.t2listing.skip_to_blank', 't2listing.t2listing.skip_to_nonblank', 't2listing.t2listing.setup_table_TOUGH2', 't2listing.t2listing.read_table_TOUGH2', 't2listing.t2listing.skip_table_TOUGH2', 't2listing.t2listing.parse_table_header_TOUGH2',
          't2listing.t2listing.skip_to_results_line', 't2listing.t2listing.start_of_values', 't2listing.t2listing.key_positions', 't2listing.t2listing.parse_table_line',
          't2listing.t2listing.read_table_line_TOUGH2', 't2listing.listingtable.key_from_line', 't2listing.t2listing.is_results_line',
          't2listing.t2listing.table_expected_floats']
@@ -26,20 +27,22 @@ NF = 3
 # the printed layouts: (1X, A5, I6, 3E12.5) - the element table of TOUGH2 - and (3X, A5, 2X, A5, I6, 3E13.6) - its connection table
 TABLES = {'element': dict(prefix='  AA 1     ', keys=[(1, ' AA 1')], mant=5, cols=['P', 'T', 'SG']),
           'connection': dict(prefix='       1      2     ', keys=[(3, '    1'), (10, '    2')], mant=6, cols=['FLOH', 'FLOH/FLOF', 'FLOF'])}
+# AUTOUGH2: (2X, A5, I6, 3(1X, E12.5)) - blank-separated values read by split()
+TABLES['element AUTOUGH2'] = dict(prefix='  GS  1     ', keys=[(2, 'GS  1')], mant=5, lead=' ', cols=['Pressure', 'Temperature', 'Gas saturati'])
 for _t in TABLES.values():
-    _t['field0'] = len(_t['prefix']) + 1; _t['width'] = _t['mant'] + 7
+    _t['field0'] = len(_t['prefix']) + 1; _t['width'] = _t['mant'] + 7 + len(_t.get('lead', ''))
 
 
-def templates(mant):
-    return {'E2': 's0.' + 'd' * mant + 'Epdd', 'N3': 's0.' + 'd' * mant + 'pddd', 'E3': 's0.' + 'd' * (mant - 1) + 'Epddd'}
+def templates(mant, lead=''):
+    return {'E2': lead + 's0.' + 'd' * mant + 'Epdd', 'N3': lead + 's0.' + 'd' * mant + 'pddd', 'E3': lead + 's0.' + 'd' * (mant - 1) + 'Epddd'}
 
 
-def build_row(e, name, forms, T, index=None, keys=None):
+def build_row(e, name, forms, T, index=None, keys=None, fixed_signs=None):
     """the key(s) and the blanks of the index field, one symbolic index digit, then the fields; returns (SymStr, sign characters)"""
     chars = [ord(c) for c in T['prefix']]
     for (pos, _k), k in zip(T['keys'], keys or []):        # other printed names in the key columns
         chars[pos: pos + 5] = [ord(c) for c in k]
-    TEMPLATES = templates(T['mant'])
+    TEMPLATES = templates(T['mant'], T.get('lead', ''))
     signs = []
     def sym(k, lo_hi=None, among=None):
         c = z3.Int('%s[%d]' % (name, k))
@@ -50,7 +53,7 @@ def build_row(e, name, forms, T, index=None, keys=None):
         for t in TEMPLATES[f]:
             k = len(chars)
             if t == 'd': chars.append(sym(k, (48, 57)))
-            elif t == 's': chars.append(sym(k, among=' -')); signs.append(chars[-1])
+            elif t == 's': chars.append(sym(k, among=' -') if fixed_signs is None else ord(fixed_signs[len(signs)])); signs.append(chars[-1])
             elif t == 'p': chars.append(sym(k, among='+-'))
             else: chars.append(ord(t))
     s = SymStr(chars)
@@ -121,6 +124,8 @@ def _same_nonblank(e, got, want):
         return e.valid(c == 32, record=False)
     while gc and is_blank_valid(gc[0]): gc.pop(0)
     while gc and is_blank_valid(gc[-1]): gc.pop()
+    while wc and is_blank_valid(wc[0]): wc.pop(0)
+    while wc and is_blank_valid(wc[-1]): wc.pop()
     # want = sign + body; got must be body or sign + body
     if len(gc) == len(wc):
         return e.valid(z3.And(*[to_int(a) == to_int(b) for a, b in zip(gc, wc)]))
@@ -229,6 +234,74 @@ def p_table_whole(e, arg):
     e.explore(prog, 'table_whole')
 
 
+def p_table_whole_autough2(e, arg):
+    """The real setup_table_AUTOUGH2 on the element table of the first result set and the real read_table_AUTOUGH2 /
+    skip_table_AUTOUGH2 on a later set, over a line tape: three lines the set-up skips, header, blank, two rows, the EEEEE
+    line, one more line.  Values are blank-separated and read by split(): every cell is the printed field of its column."""
+    forms1, forms2 = arg
+    table = 'element'
+    T = TABLES['element AUTOUGH2']
+    tag = '[whole driver, AUTOUGH2 element table, first set %s, later set %s]' % (' '.join('/'.join(f) for f in forms1), ' '.join('/'.join(f) for f in forms2))
+    names = ['GS  1', 'AC 90']
+    def prog(e):
+        m = e.load_module('t2listing')
+        calls = []
+        def ff(eng, args, kwargs):
+            calls.append(args[0])
+            return z3.Real('ff%d' % (len(calls) - 1))
+        e.opaque['fortran_float'] = ff
+        e.find_branches = True
+        def rows_of(setname, forms):
+            # split() decides every sign column by a branch: the second row of each set has concrete signs (8 x 8 paths, not 512)
+            return [SymStr(list(build_row(e, '%s_row%d' % (setname, k + 1), f, T, index=k + 1, keys=[names[k]], fixed_signs=None if k == 0 else {'first': ' - ', 'later': '- -'}[setname])[0].chars) + [10]) for k, f in enumerate(forms)]
+        set1, set2 = rows_of('first', forms1), rows_of('later', forms2)
+        head = ' ELEMEN INDEX   Pressure    Temperature Gas saturati\n'
+        def table_lines(rows):
+            return [' ' + 'E' * 100 + '\n', ' ' * 59 + 'ELEMENT TABLE\n', '\n', head, '\n'] + rows + [' ' + 'E' * 100 + '\n', ' the title\n']
+        lines = table_lines(set1) + table_lines(set2)
+        st = {'pos': 0}
+        def readline(eng):
+            if st['pos'] >= len(lines): return ''
+            st['pos'] += 1
+            return lines[st['pos'] - 1]
+        f = Obj(None)
+        f.fields['readline'] = Builtin('file.readline', readline)
+        f.fields['tell'] = Builtin('file.tell', lambda eng: st['pos'])
+        f.fields['seek'] = Builtin('file.seek', lambda eng, p, *a: st.update(pos=p))
+        me = Obj(m.globals['t2listing'])
+        me.fields.update(_file=f, readline=Builtin('readline', readline), title='the title', _table={}, _tablenames=[], simulator='AUTOUGH2')
+        G = lambda q: e.get_function('t2listing.t2listing.' + q)
+        n1 = len(table_lines(set1))
+        try:
+            e.call(G('setup_table_AUTOUGH2'), [me, table])
+            after_setup = st['pos']
+            st['pos'] = n1
+            e.call(G('read_table_AUTOUGH2'), [me, table])
+            after_read = st['pos']
+            st['pos'] = n1
+            e.call(G('skip_table_AUTOUGH2'), [me, table])
+            after_skip = st['pos']
+        except PyExc as ex:
+            e.fail('post:table_is_set_up_and_read' + tag, 'raises %s: %s' % (ex.cls, ex.msg if isinstance(ex.msg, str) else '(message built from the row)')); return
+        e.prove(True, 'post:table_is_set_up_and_read' + tag)
+        tab = me.fields['_table'][table]
+        fix = e.get_function('mulgrids.fix_blockname')
+        want_names = [e.call(fix, [n]) for n in names]
+        e.prove(list(tab.fields['row_name']) == want_names and list(tab.fields['column_name']) == T['cols'], 'post:one_row_per_printed_row_under_the_printed_names' + tag)
+        e.prove(after_setup == n1 and after_read == 2 * n1, 'post:the_table_and_its_closing_lines_are_consumed' + tag)
+        e.prove(after_skip == after_read, 'post:skipping_the_table_leaves_the_cursor_where_reading_it_does' + tag)
+        ok = len(calls) == 2 * NF
+        gi = e.get_function('t2listing.listingtable.__getitem__')
+        for k in range(2):
+            if not ok: break
+            row = e.call(gi, [tab, want_names[k]])
+            for i in range(NF):
+                field = e.getslice(set2[k], T['field0'] + T['width'] * i, T['field0'] + T['width'] * (i + 1), None)
+                ok = ok and _same_nonblank(e, calls[k * NF + i], field) and L.equals(e, e.getitem(row, T['cols'][i]), z3.Real('ff%d' % (k * NF + i))) is True
+        e.prove(ok, 'post:cell_is_read_from_exactly_its_printed_field' + tag)
+    e.explore(prog, 'table_whole_autough2')
+
+
 TABLES['element']['above'] = [' ELEM.  INDEX     P           T          SG', '                 (PA)      (DEG-C)            (KG/M**3)', '']
 TABLES['connection']['above'] = ['   ELEM1  ELEM2  INDEX    FLOH      FLOH/FLOF       FLOF', '                          (W)        (J/KG)        (KG/S)', '']
 ALL_E2 = ('E2', 'E2', 'E2')
@@ -237,7 +310,8 @@ LAYOUTS = [(ALL_E2, ALL_E2, ''), (ALL_E2, ('N3', 'E3', 'N3'), ''), (('N3', 'E2',
 LAYOUTS += [(ALL_E2, ('E2', 'N3', 'E3'), '', 'connection'), (('N3', 'E3', 'E2'), ALL_E2, '', 'connection'), (('E3', 'N3', 'N3'), ('N3', 'E2', 'E3'), '', 'connection')]
 WHOLE = [((ALL_E2, ('E2', 'N3', 'E2')), (('N3', 'E3', 'E2'), ALL_E2), 'element'), ((('E3', 'E2', 'E2'), ALL_E2), (ALL_E2, ('E2', 'N3', 'E3')), 'connection'),
          ((('N3', 'E2', 'N3'), ('E3', 'E3', 'E2')), (('E3', 'N3', 'N3'), ('N3', 'E2', 'E3')), 'element')]
-PROGRAMS = [('p_layout', a) for a in LAYOUTS] + [('p_table_whole', a) for a in WHOLE] + [('p_results_line', (ALL_E2, 'element')), ('p_results_line', (('N3', 'E3', 'E2'), 'connection'))]
+WHOLE_AUTOUGH2 = [((ALL_E2, ('E2', 'N3', 'E2')), (('N3', 'E3', 'E2'), ALL_E2))]
+PROGRAMS = [('p_layout', a) for a in LAYOUTS] + [('p_table_whole', a) for a in WHOLE] + [('p_table_whole_autough2', a) for a in WHOLE_AUTOUGH2] + [('p_results_line', (ALL_E2, 'element')), ('p_results_line', (('N3', 'E3', 'E2'), 'connection'))]
 
 
 def programs(tier):
@@ -251,7 +325,7 @@ def programs(tier):
         for table in ('element', 'connection'):
             a = (lf, tuple(forms[(k + j) % 3] for j in range(NF)), '') + (() if table == 'element' else (table,))
             if a not in LAYOUTS: extra.append(a)
-    return PROGRAMS + [('p_layout', a) for a in extra]
+    return PROGRAMS + [('p_layout', a) for a in extra] + [('p_table_whole_autough2', ((('E3', 'N3', 'E2'), ALL_E2), (('E2', 'E3', 'N3'), ('N3', 'E2', 'E3'))))]
 
 
 def replay(obname, model, result):
@@ -259,6 +333,10 @@ def replay(obname, model, result):
     if result['program'] == 'p_results_line':
         return None if 'row' not in m else ("from t2listing import t2listing\nme = t2listing.__new__(t2listing)\nrow = %r\n"
                                             "ok = me.is_results_line(row, 3) and not me.is_results_line(row, 4)\ndetail = 'is_results_line(%%r, 3) = %%r' %% (row, me.is_results_line(row, 3))\n") % (m['row'],)
+    if result['program'] == 'p_table_whole_autough2':
+        keys = ['first_row1', 'first_row2', 'later_row1', 'later_row2']
+        if not all(k in m for k in keys): return None
+        return ("from contracts.c05_native import native_table_whole_autough2\nok, detail = native_table_whole_autough2(%r)\n") % ([m[k] for k in keys],)
     if result['program'] == 'p_table_whole':
         keys = ['first_row1', 'first_row2', 'later_row1', 'later_row2']
         if not all(k in m for k in keys): return None
